@@ -640,7 +640,7 @@ func (ex *Exec) indexOp(in *ssa.Index, fr *frame) Value {
 			ex.goPanicf("index out of range [%d] with length %d", i, len(a.E))
 		}
 		return copyVal(a.E[i].V)
-	case string, *smt.Term:
+	case string, *SymStr:
 		return ex.stringIndex(x, idx, fr)
 	}
 	panic(engineErr("Index on %T", x))
@@ -655,26 +655,27 @@ func (ex *Exec) stringIndex(s Value, idx Value, fr *frame) Value {
 			return int64(cs[i])
 		}
 	}
-	st := toTerm(s, types.Typ[types.String])
-	// bounds check
-	var inb Value
-	var off string
+	ss := toSym(s)
 	if i, ok := idx.(int64); ok {
-		if i < 0 {
+		if i < 0 || int(i) >= len(ss.Ch) {
 			ex.goPanicf("index out of range [%d]", i)
 		}
-		inb = &smt.Term{S: fmt.Sprintf("(< %d (str.len %s))", i, st.S), Sort: smt.Bool}
-		off = fmt.Sprintf("%d", i)
-	} else {
-		it := idx.(*smt.Term)
-		off = smt.BV2Int(it)
-		inb = smt.And(smt.BVCmp("bvsge", it, smt.BVConst(0, it.Sort.W)),
-			&smt.Term{S: fmt.Sprintf("(< %s (str.len %s))", off, st.S), Sort: smt.Bool})
+		inb := smt.BVCmp("bvugt", ss.Len, bv8(int(i)))
+		if !ex.branch("stridx@"+fr.shortPos(fr.curInstr), simplifyBool(inb)) {
+			ex.goPanicf("index out of range [%d] (string)", i)
+		}
+		return ss.Ch[i]
 	}
-	if !ex.branch("stridx@"+fr.shortPos(fr.curInstr), inb) {
+	it := idx.(*smt.Term)
+	inb := smt.BVCmp("bvult", it, smt.BVResize(ss.Len, it.Sort.W, false))
+	if !ex.branch("stridx@"+fr.shortPos(fr.curInstr), simplifyBool(inb)) {
 		ex.goPanicf("index out of range (string)")
 	}
-	return smt.StrAtCode(st, off)
+	var t *smt.Term = bv8(0)
+	for i := len(ss.Ch) - 1; i >= 0; i-- {
+		t = smt.Ite(smt.Same(it, smt.BVConst(uint64(i), it.Sort.W)), ss.Ch[i], t)
+	}
+	return t
 }
 
 func (ex *Exec) sliceOp(in *ssa.Slice, fr *frame) Value {
@@ -690,7 +691,7 @@ func (ex *Exec) sliceOp(in *ssa.Slice, fr *frame) Value {
 		max = fr.get(in.Max)
 	}
 	switch a := x.(type) {
-	case string, *smt.Term:
+	case string, *SymStr:
 		return ex.stringSlice(a, lo, hi, fr)
 	case Slice:
 		l, h, m := ex.sliceBounds(lo, hi, max, a.Len, a.Cap, fr)
@@ -734,50 +735,50 @@ func (ex *Exec) sliceBounds(lo, hi, max Value, ln, cp int, fr *frame) (int, int,
 }
 
 func (ex *Exec) stringSlice(s Value, lo, hi Value, fr *frame) Value {
+	l, h := int64(0), int64(-1)
+	if lo != nil {
+		v, ok := lo.(int64)
+		if !ok {
+			panic(engineErr("symbolic string slice bound at %s", fr.pos()))
+		}
+		l = v
+	}
+	if hi != nil {
+		v, ok := hi.(int64)
+		if !ok {
+			panic(engineErr("symbolic string slice bound at %s", fr.pos()))
+		}
+		h = v
+	}
 	if cs, ok := s.(string); ok {
-		l, h := int64(0), int64(len(cs))
-		lok, hok := true, true
-		if lo != nil {
-			l, lok = lo.(int64)
+		if h < 0 {
+			h = int64(len(cs))
 		}
-		if hi != nil {
-			h, hok = hi.(int64)
+		if l < 0 || h < l || h > int64(len(cs)) {
+			ex.goPanicf("slice bounds out of range [%d:%d] with length %d", l, h, len(cs))
 		}
-		if lok && hok {
-			if l < 0 || h < l || h > int64(len(cs)) {
-				ex.goPanicf("slice bounds out of range [%d:%d] with length %d", l, h, len(cs))
-			}
-			return cs[l:h]
-		}
+		return cs[l:h]
 	}
-	st := toTerm(s, types.Typ[types.String])
-	intExpr := func(v Value, def string) string {
-		if v == nil {
-			return def
-		}
-		if i, ok := v.(int64); ok {
-			if i < 0 {
-				ex.goPanicf("slice bounds out of range [%d:]", i)
-			}
-			return fmt.Sprintf("%d", i)
-		}
-		return smt.BV2Int(v.(*smt.Term))
+	ss := toSym(s)
+	if l < 0 || (h >= 0 && h < l) {
+		ex.goPanicf("slice bounds out of range [%d:%d]", l, h)
 	}
-	slen := smt.StrLenInt(st)
-	l := intExpr(lo, "0")
-	h := intExpr(hi, slen)
-	var conds []*smt.Term
-	conds = append(conds, &smt.Term{S: fmt.Sprintf("(<= %s %s)", l, h), Sort: smt.Bool})
-	conds = append(conds, &smt.Term{S: fmt.Sprintf("(<= %s %s)", h, slen), Sort: smt.Bool})
-	for _, v := range []Value{lo, hi} {
-		if t, ok := v.(*smt.Term); ok {
-			conds = append(conds, smt.BVCmp("bvsge", t, smt.BVConst(0, t.Sort.W)))
-		}
+	need := l
+	if h >= 0 {
+		need = h
 	}
-	if !ex.branch("strslice@"+fr.shortPos(fr.curInstr), smt.And(conds...)) {
-		ex.goPanicf("slice bounds out of range (string)")
+	if int(need) > len(ss.Ch) {
+		ex.goPanicf("slice bounds out of range [%d:%d] (string)", l, h)
 	}
-	return smt.StrSubstrInt(st, l, fmt.Sprintf("(- %s %s)", h, l))
+	ok := simplifyBool(smt.BVCmp("bvuge", ss.Len, bv8(int(need))))
+	if !ex.branch("strslice@"+fr.shortPos(fr.curInstr), ok) {
+		ex.goPanicf("slice bounds out of range [%d:%d] (string)", l, h)
+	}
+	r := ss
+	if h >= 0 {
+		r = strPrefixTo(r, int(h))
+	}
+	return strSuffixFrom(r, int(l))
 }
 
 // ---- type assertion ----
